@@ -16,12 +16,23 @@ def cases(tier, seed, ctx=None):
              if (h + b"\r\n\r\n").find(b"\r\n\r\n") == len(h)]
     # rejected heads longer than the 16 KiB blocks of QIODevice, arriving in one piece (or waiting before the socket exists)
     heads += [b"BOGUS" + b" x" * 8500, b"GET /p HTTP/1.1\r\nX: " + b"y" * 16380 + b"\r\nNoColon"]
+    # heads with many header lines whose only defect sits at a chosen position (first, middle, 99th..103rd, last): the count of lines
+    # before the defect must not matter
+    for nlines in (30, 101, 140, 300):
+        for bad_at in sorted(set([0, nlines // 2, 98, 99, 100, 101, 102, nlines - 1])):
+            if bad_at >= nlines:
+                continue
+            lines = [b"X-%d: v%d" % (i, i) for i in range(nlines)]
+            lines[bad_at] = rng.choice([b"NoColonHere", b"no colon at all", b""]) if bad_at != nlines - 1 else b"NoColon"
+            if lines[bad_at] == b"" and bad_at != nlines - 1:
+                lines[bad_at] = b"Broken"
+            heads.append(b"GET /p HTTP/1.1\r\n" + b"\r\n".join(lines))
     ver, tab = G.oracle(ctx, [G.head_target(h) for h in heads])
     for h in heads:
         env = G.env_for(ver, tab, [G.head_target(h)])
         for trailing in ([rng.choice(TRAIL)] if tier == "quick" else TRAIL):
             stream = h + b"\r\n\r\n" + trailing
-            if len(stream) > 8000:      # long heads: a few coarse segmentations only (the model is quadratic in steps x buffer)
+            if len(stream) > 1500:      # long heads: a few coarse segmentations only (the model is quadratic in steps x buffer)
                 seglist = [[stream], [stream[:16384], stream[16384:]], [stream[:len(stream) - 2], stream[len(stream) - 2:]]]
             else:
                 seglist = G.partitions_for(rng, stream, tier)
